@@ -38,7 +38,10 @@ def one(name):
     checks = sorted(set([prop] + list(ver.get("caught_by", []))))
     patch = os.path.join(d, "patch.diff")
     res, used = {}, None
-    for commit in ("HEAD", base):
+    # a change that a later repair of the repository made harmless is
+    # re-checked where it still bites: on the commit it was written against
+    order = (base,) if ver.get("neutralised_by_fix") else ("HEAD", base)
+    for commit in order:
         wt = tempfile.mkdtemp(prefix="seedre-")
         os.rmdir(wt)
         try:
